@@ -13,7 +13,8 @@
    Integers are Z; `as u16`/`as u32` casts are wrap_u16/wrap_u32; a Vec is a list in
    storage order.  Not modelled: locators, timestamps, inline QoS (always empty here),
    key_flag (always false), HEARTBEAT submessages inside the writer's datagrams (the
-   harness feeds heartbeats explicitly), i32 wrap of the ACKNACK count. *)
+   harness feeds heartbeats explicitly).
+   Follows /repo after the fix commits 9534038 46bd1ab f7fe2df d6a64f9 a2cc75b d077ac8. *)
 From DustDDS Require Export Base.Machine.
 From Coq Require Export Sorted.
 Open Scope Z_scope.
@@ -42,12 +43,6 @@ Fixpoint bytes_eqb (a b : bytes) : bool :=
   | x :: a', y :: b' => (x =? y) && bytes_eqb a' b'
   | _, _ => false
   end.
-
-(* derived PartialEq of DataFragSubmessage (flags, writer_id and inline_qos are constant here) *)
-Definition frag_eqb (a b : frag) : bool :=
-  (fr_rid a =? fr_rid b) && (fr_sn a =? fr_sn b) && (fr_start a =? fr_start b) &&
-  (fr_nsub a =? fr_nsub b) && (fr_fsize a =? fr_fsize b) && (fr_dsize a =? fr_dsize b) &&
-  bytes_eqb (fr_data a) (fr_data b).
 
 (* data[start..end] *)
 Definition slice (p : bytes) (s e : Z) : bytes :=
@@ -110,7 +105,11 @@ Definition w_write (w : wstate) (p : bytes) : res (wstate * list wire) :=
   Ok (set_changes w (w_changes w ++ [(sn, p)]), a ++ b).
 
 (* on_nack_frag_submessage_received for a NACK_FRAG from R1:
-   `set` is what FragmentNumberSet::set() yields (ascending members, base included when set) *)
+   `set` is what FragmentNumberSet::set() yields (ascending members).  The requested numbers are the
+   base once, then the other members; they are 1-based, the fragment index is n - 1 *)
+Definition nack_requests (base : Z) (set : list Z) : list Z :=
+  base :: filter (fun k => negb (k =? base)) set.
+
 Definition w_on_nack_frag (w : wstate) (count sn base : Z) (set : list Z) : res (wstate * list wire) :=
   if w_rel w && (w_last_nf w <? count) then
     let w' := set_last_nf w count in
@@ -119,9 +118,8 @@ Definition w_on_nack_frag (w : wstate) (count sn base : Z) (set : list Z) : res 
         if w_f w =? 0 then Panic 1
         else
           let n := div_ceil (blen p) (w_f w) in
-          (* `request_fragment_number` (1-based on the wire) is used as the 0-based index *)
-          Ok (w', map (fun k => WFrag (mk_data_frag 1 sn p (w_f w) k))
-                      (filter (fun k => k <? n) (base :: set)))
+          Ok (w', map (fun k => WFrag (mk_data_frag 1 sn p (w_f w) (k - 1)))
+                      (filter (fun k => (1 <=? k) && (k <=? n)) (nack_requests base set)))
     | None => Ok (w', [WGap sn])
     end
   else Ok (w, []).
@@ -194,9 +192,10 @@ Definition total_fragments_expected (fr : frag) : res Z :=
 Definition has_sn (sn : Z) (fr : frag) : bool := fr_sn fr =? sn.
 Definition is_frag (sn n : Z) (fr : frag) : bool := (fr_sn fr =? sn) && (fr_start fr =? n).
 
-(* push_data_frag *)
+(* push_data_frag: a fragment is identified by (writer_sn, fragment_starting_num) *)
+Definition same_key (a b : frag) : bool := (fr_sn a =? fr_sn b) && (fr_start a =? fr_start b).
 Definition push_frag (buf : list frag) (fr : frag) : list frag :=
-  if existsb (frag_eqb fr) buf then buf else buf ++ [fr].
+  if existsb (same_key fr) buf then buf else buf ++ [fr].
 
 (* for frag_number in from .. from+k : extend with the first buffered fragment of that number *)
 Fixpoint collect (buf : list frag) (sn : Z) (k : nat) (from : Z) : bytes :=
@@ -250,6 +249,7 @@ Definition r_on_data (r : rstate) (sn : Z) (p : bytes) : rstate :=
 
 (* on_data_frag_submessage *)
 Definition r_on_frag (r : rstate) (fr : frag) : res rstate :=
+  if fr_fsize fr =? 0 then Ok r (* fragment size 0 is ignored *) else
   let sn := fr_sn fr in
   let expected := available_changes_max r + 1 in
   let accept := if r_rel r then sn =? expected else expected <=? sn in
@@ -312,13 +312,9 @@ Definition gen_nackfrag (r : rstate) : res (option nackfrag) :=
             let e := div_ceil (fr_dsize fr) (fr_fsize fr) in
             let miss := filter (fun n => negb (existsb (is_frag s n) (r_buf r)))
                                (zrange 1 (Z.to_nat e)) in
-            match miss with
-            | [] => Panic 4 (* expect("At least a fragment must be missing") *)
-            | b :: _ =>
-                (* FragmentNumberSet::new: bitmap[(n - base) / 32] with a [i32; 8] bitmap *)
-                if existsb (fun n => 256 <=? n - b) miss then Panic 123
-                else Ok (Some (mkNf s b miss (r_nfcount r)))
-            end
+            (* base = first missing number, or 1 when none is missing; at most 256 numbers from it *)
+            let b := match miss with [] => 1 | b :: _ => b end in
+            Ok (Some (mkNf s b (take_while (fun n => n - b <? 256) miss) (r_nfcount r)))
       end
   end.
 
@@ -326,7 +322,7 @@ Definition gen_nackfrag (r : rstate) : res (option nackfrag) :=
 Definition r_write_message (r : rstate) : res (rstate * option (acknack * option nackfrag)) :=
   if r_must r then
     let r1 := mkR (r_rel r) (r_first r) (r_last r) (r_highest r) (r_buf r) false (r_hbcount r)
-                  (r_ackcount r + 1) (r_nfcount r) (r_changes r) in
+                  (wrap_i32 (r_ackcount r + 1)) (wrap_i32 (r_nfcount r + 1)) (r_changes r) in
     let bound := match min_sn (r_buf r1) None with Some m => m | None => i64_max end in
     let ack := mkAck (available_changes_max r1 + 1)
                      (take_while (fun x => x <? bound) (missing256 r1)) (r_ackcount r1) in
@@ -424,15 +420,13 @@ Fixpoint written (ops : list op) : list bytes :=
 Definition nth_written (ws : list bytes) (sn : Z) : option bytes :=
   if 1 <=? sn then nth_error ws (Z.to_nat (sn - 1)) else None.
 
-(* operations of the fault-schedule language the byte-identity theorem ranges over:
-   payloads below 4 GiB, the reader only sees datagrams addressed to it (which = 1),
-   no hand-made fragments, NACK_FRAG numbers are unsigned *)
+(* operations of the fault-schedule language the theorems range over: payloads below 4 GiB and
+   no hand-made fragments (everything else, including datagrams addressed to the other reader
+   and forged NACK_FRAGs, is allowed) *)
 Definition op_ok (o : op) : Prop :=
   match o with
   | OWrite p => blen p < two32
-  | ODeliver _ _ which => which = 1
   | OForeign _ => False
-  | OForged _ _ base set => 0 <= base /\ Forall (fun k => 0 <= k) set
   | _ => True
   end.
 
@@ -442,50 +436,83 @@ Definition op_ok (o : op) : Prop :=
 Definition frag_size_ok (f : Z) : Prop := 0 < f < 65536.
 Definition payload_ok (p : bytes) : Prop := blen p < two32.
 
-(* a DATA_FRAG the writer (fragment size f, history ch) really produced for reader rid *)
-Definition genuine (f rid : Z) (ch : list (Z * bytes)) (fr : frag) : Prop :=
-  exists p i, lookup (fr_sn fr) ch = Some p /\ 0 <= i < div_ceil (blen p) f /\
-              fr = mk_data_frag rid (fr_sn fr) p f i.
+(* a DATA_FRAG the writer (fragment size f, history ch) really produced, for whichever reader *)
+Definition genuine (f : Z) (ch : list (Z * bytes)) (fr : frag) : Prop :=
+  exists rid p i, lookup (fr_sn fr) ch = Some p /\ 0 <= i < div_ceil (blen p) f /\
+                  fr = mk_data_frag rid (fr_sn fr) p f i.
 
 Definition history_ok (ch : list (Z * bytes)) : Prop :=
   forall sn p, lookup sn ch = Some p -> payload_ok p.
 
-(* every fragment of sample (sn, p) is in the buffer *)
-Definition complete (f rid : Z) (buf : list frag) (sn : Z) (p : bytes) : Prop :=
-  forall i, 0 <= i < div_ceil (blen p) f -> In (mk_data_frag rid sn p f i) buf.
+(* fragment number k (1-based) of sample sn is in the buffer *)
+Definition present (buf : list frag) (sn k : Z) : Prop :=
+  exists x, In x buf /\ fr_sn x = sn /\ fr_start x = k.
 
-(* what a reader state may contain, relative to the writer's history ch: distinct genuine fragments,
-   and changes that carry the written payloads with increasing sequence numbers *)
+(* every fragment of sample (sn, p) is in the buffer *)
+Definition complete (f : Z) (buf : list frag) (sn : Z) (p : bytes) : Prop :=
+  forall i, 0 <= i < div_ceil (blen p) f -> present buf sn (i + 1).
+
+Definition frag_key (x : frag) : Z * Z := (fr_sn x, fr_start x).
+
+(* what a reader state may contain, relative to the writer's history ch: genuine fragments, one per
+   (sequence number, fragment number), and changes that carry the written payloads with increasing
+   sequence numbers *)
 Record rinv (f : Z) (ch : list (Z * bytes)) (r : rstate) : Prop := mkrinv {
-  ri_nodup : NoDup (r_buf r);
-  ri_genuine : forall x, In x (r_buf r) -> genuine f 1 ch x;
+  ri_keys : NoDup (map frag_key (r_buf r));
+  ri_genuine : forall x, In x (r_buf r) -> genuine f ch x;
   ri_changes : Forall (fun c => lookup (fst c) ch = Some (snd c) /\ fst c <= r_highest r) (r_changes r);
   ri_sorted : StronglySorted Z.lt (map fst (r_changes r))
 }.
 
-(* genuine data-carrying submessages of the writer towards reader 1 *)
+(* genuine data-carrying submessages of the writer *)
 Definition wire_genuine (f : Z) (ch : list (Z * bytes)) (w : wire) : Prop :=
   match w with
   | WData _ sn p => lookup sn ch = Some p
-  | WFrag fr => genuine f 1 ch fr
+  | WFrag fr => genuine f ch fr
   | WGap _ => True
   end.
 
-(* continuations in which fragment j (0-based) of sample sn stays lost: its datagram is never
-   delivered and nobody forges NACK_FRAGs (the reader's own ones are used) *)
-Definition lost_op (sn j : Z) (o : op) : Prop :=
-  match o with
-  | ODeliver sn' idx _ => ~ (sn' = sn /\ idx = j)
-  | OForged _ _ _ _ => False
-  | _ => True
-  end.
+Definition no_forged (o : op) : Prop := match o with OForged _ _ _ _ => False | _ => True end.
 
-(* samples of at most 256 fragments (the span of one NACK_FRAG bitmap) *)
-Definition small_op (f : Z) (o : op) : Prop :=
-  match o with
-  | OWrite p => div_ceil (blen p) f <= 256
-  | _ => True
-  end.
+(* ---- vocabulary of the repair theorems *)
+
+Definition only_sn (sn : Z) (buf : list frag) : Prop := forall x, In x buf -> fr_sn x = sn.
+
+(* counters: what the writer has seen never exceeds what the reader has sent; N bounds both *)
+Record cinv (N : Z) (s : sys) : Prop := mkcinv {
+  ci_nf : 0 <= w_last_nf (s_w s) <= r_nfcount (s_r s);
+  ci_an : 0 <= w_last_an (s_w s) <= r_ackcount (s_r s);
+  ci_bound : r_nfcount (s_r s) <= N /\ r_ackcount (s_r s) <= N;
+  ci_reply : forall a nfo, s_reply s = Some (a, nfo) ->
+               a_count a <= r_ackcount (s_r s) /\ forall nf, nfo = Some nf -> n_count nf <= r_nfcount (s_r s)
+}.
+
+(* sample sn = p is written and fragmented, reliable reader matched to reliable writer, and the
+   heartbeats announce it (sn <= last) *)
+Record rep (sn : Z) (p : bytes) (last : Z) (s : sys) : Prop := mkrep {
+  rp_s_f : frag_size_ok (w_f (s_w s));
+  rp_s_h : history_ok (w_changes (s_w s));
+  rp_s_r : rinv (w_f (s_w s)) (w_changes (s_w s)) (s_r s);
+  rp_wrel : w_rel (s_w s) = true;
+  rp_rrel : r_rel (s_r s) = true;
+  rp_lk : lookup sn (w_changes (s_w s)) = Some p;
+  rp_n : 1 < div_ceil (blen p) (w_f (s_w s));
+  rp_sn : 1 <= sn < i64_max /\ sn <= last
+}.
+
+(* the reader still waits for sn: it is the first sample the heartbeat (first, _) leaves missing, the
+   buffer holds an incomplete set of its fragments — ANY subset, possibly none: any loss pattern — and
+   nothing else, and all fragment numbers below L are there (L = 1: no assumption) *)
+Definition pending (sn : Z) (p : bytes) (first L : Z) (s : sys) : Prop :=
+  Z.max first (r_highest (s_r s) + 1) = sn /\ available_changes_max (s_r s) + 1 = sn /\
+  ~ complete (w_f (s_w s)) (r_buf (s_r s)) sn p /\ only_sn sn (r_buf (s_r s)) /\
+  (forall k, 1 <= k < L -> k <= div_ceil (blen p) (w_f (s_w s)) -> present (r_buf (s_r s)) sn k).
+
+(* one repair round: heartbeat; the reader's ACKNACK to the writer and the answer back; the reader's
+   NACK_FRAG to the writer and the resent fragments back — nothing lost in the round *)
+Definition round (first last c : Z) (final : bool) : list op := [OHb first last c final; OAckNack; ONackFrag].
+Fixpoint rounds (first last c : Z) (final : bool) (k : nat) : list op :=
+  match k with O => [] | S k' => round first last c final ++ rounds first last (c + 1) final k' end.
 
 (* the byte-identity oracle on plain bytes (FragCorr.identical_from is the same walk over the
    harness' (bytes | digest) observations) *)
